@@ -207,6 +207,27 @@ func definitelyNonNil(v ssa.Value, depth int, seen map[ssa.Value]bool) bool {
 		return true
 	case *ssa.ChangeInterface:
 		return definitelyNonNil(x.X, depth+1, seen)
+	case *ssa.Extract:
+		// fail := func(err error) (T, error) { return T{}, err }  — result k is parameter j
+		if call, ok := x.Tuple.(*ssa.Call); ok {
+			var callee *ssa.Function
+			if sc := call.Call.StaticCallee(); sc != nil {
+				callee = sc
+			} else if mc, ok := call.Call.Value.(*ssa.MakeClosure); ok {
+				callee, _ = mc.Fn.(*ssa.Function)
+			} else if fn, ok := call.Call.Value.(*ssa.Function); ok {
+				callee = fn
+			}
+			if callee != nil && inRepo(callee) && len(callee.Blocks) == 1 {
+				if ret, ok := callee.Blocks[0].Instrs[len(callee.Blocks[0].Instrs)-1].(*ssa.Return); ok && x.Index < len(ret.Results) {
+					for j, prm := range callee.Params {
+						if ret.Results[x.Index] == ssa.Value(prm) && j < len(call.Call.Args) {
+							return definitelyNonNil(call.Call.Args[j], depth+1, seen)
+						}
+					}
+				}
+			}
+		}
 	case *ssa.UnOp:
 		// load of a package-level error variable initialised with errors.New
 		if x.Op == token.MUL {
